@@ -1017,6 +1017,10 @@ def fetch_case(ctx, name, initial, conc):
         try:
             _revidmap, _old, result = inter.fetch_refs(update_refs, lossy=True)
         except Exception as e:  # noqa: BLE001
+            import errno
+            if isinstance(e, MemoryError) or (isinstance(e, OSError) and e.errno in (
+                    errno.ENOSPC, errno.EDQUOT, errno.EMFILE, errno.ENFILE, errno.ENOMEM)):
+                raise env.InfraError("C37: %s during fetch_refs: %s" % (type(e).__name__, e))
             err = type(e).__name__
     actual = TransportRefsContainer(ct).get(name)
     claimed = result.get(name, (None, None))[0] if err is None else None
